@@ -904,7 +904,7 @@ pub const MODULE_STATES: &[(&str, &str)] = &[
     ("absent", ""),
     ("directory", ""),
     ("empty", ""),
-    ("valid", "a := 1; f := (x: int) -> int { return x + a }; s := \"t\""),
+    ("valid", "a := 1; f := (x: int) -> int { return x + a }; s := \"t\"; _h := [a, 2]"),
     ("syntax-error", "a := := 1"),
     ("type-error", "a := 1 + \"x\""),
     ("fold-fails", "a := 1 / 0"),
@@ -917,7 +917,23 @@ pub const MODULE_STATES: &[(&str, &str)] = &[
     ("comment-only", "// nothing\n/* at all */"),
     ("unterminated", "a := \"abc"),
     ("big-int", "a := 99999999999999999999"),
+    ("constant-last", "a := 1; 5"),
+    ("only-constant", "5"),
+    ("whitespace-only", "   \n\t\n"),
+    ("shadows-importer", "z := \"mine\"; w := z"),
 ];
+
+/// The top-level names a successfully imported file in this state must yield (None = no claim).
+fn module_names(state: &str) -> Option<Vec<&'static str>> {
+    Some(match state {
+        "valid" => vec!["_h", "a", "f", "s"],
+        "nested" => vec!["a", "inner"],
+        "empty" | "comment-only" | "whitespace-only" | "only-constant" => vec![],
+        "constant-last" => vec!["a"],
+        "shadows-importer" => vec!["w", "z"],
+        _ => return None,
+    })
+}
 
 pub const IMPORT_FORMS: &[&str] = &[
     "m := import \"p\"; m",
@@ -930,6 +946,8 @@ pub const IMPORT_FORMS: &[&str] = &[
     "a := import \"p\"; b := import \"p\"; (a.a, b.a, b.s, b.f(1))",
     "m := import \"p\"; n := import \"q\"; (m.a, n.a, m.inner.a, n.f(1), m.inner.s)",
     "g := () -> int { m := import \"p\"; return m.a + m.f(1) }; (g(), g())",
+    // the importer's own names must not leak into the module, nor be changed by it
+    "z := 9; y := \"keep\"; m := import \"p\"; (m, z, y)",
 ];
 
 /// What a fault-free case must evaluate to (canonical value text) when its files are valid.
@@ -972,7 +990,12 @@ pub fn run_import_case(case: &ImportCase, key_seed: u64) -> RunReport {
             o.nodes.insert("q".into(), n);
         }
         if let Some((i, e)) = case.fault {
-            o.faults.insert(i, FaultSpec { errno: e, torn: 0 });
+            if i == 100 {
+                o.faults.insert(0, FaultSpec { errno: e, torn: 0 });
+                o.faults.insert(1, FaultSpec { errno: e, torn: 0 });
+            } else {
+                o.faults.insert(i, FaultSpec { errno: e, torn: 0 });
+            }
         }
         os::install(o);
         let interp = Interpreter::with_stdlib();
@@ -1006,7 +1029,7 @@ pub fn run_import_case(case: &ImportCase, key_seed: u64) -> RunReport {
                 rep.log.push(format!("{desc} -> Ok"));
                 // (an implementation may try several paths; what must not happen is acceptance although
                 // the last read - the one whose text would have been the module - failed)
-                if calls.last().is_some_and(|c| matches!(c.result, CallResult::Err(..))) && case.form <= 1 {
+                if calls.last().is_some_and(|c| matches!(c.result, CallResult::Err(..))) {
                     rep.violation = Some(("io-error-lost".into(), format!("{desc}: the last read failed but the program was accepted")));
                     return rep;
                 }
@@ -1014,11 +1037,42 @@ pub fn run_import_case(case: &ImportCase, key_seed: u64) -> RunReport {
                 rep.events += 1;
                 match r {
                     Err(p) => rep.violation = Some(("exec-panic".into(), format!("executing accepted {desc} panicked: {p}"))),
-                    Ok(Ok(Variable::Struct(m))) if case.form <= 1 && MODULE_STATES[case.p_state].0 == "valid" => {
-                        let mut names: Vec<String> = m.keys().map(|k| k.to_string()).collect();
-                        names.sort();
-                        if names != vec!["a".to_string(), "f".to_string(), "s".to_string()] {
-                            rep.violation = Some(("module-names".into(), format!("{desc}: module has fields {names:?}, file declares a, f, s")));
+                    Ok(Ok(v)) if case.fault.is_none() && (case.form <= 1 || case.form == 9) && module_names(MODULE_STATES[case.p_state].0).is_some() => {
+                        let module = match (&v, case.form) {
+                            (Variable::Tuple(t), 9) => {
+                                // the importer's own names are untouched
+                                if t.len() == 3 && (cvar(&t[1]) != "9" || cvar(&t[2]) != "\"keep\"") {
+                                    rep.violation = Some(("module-names".into(), format!("{desc}: the importer's z / y are {} / {} after the import", cvar(&t[1]), cvar(&t[2]))));
+                                    return rep;
+                                }
+                                t.first().cloned()
+                            }
+                            (other, _) => Some(other.clone()),
+                        };
+                        if let Some(Variable::Struct(m)) = module {
+                            let mut names: Vec<String> = m.keys().map(|k| k.to_string()).collect();
+                            names.sort();
+                            let want = module_names(MODULE_STATES[case.p_state].0).unwrap();
+                            if names != want {
+                                rep.violation = Some(("module-names".into(), format!("{desc}: module has fields {names:?}, the file declares {want:?}")));
+                                return rep;
+                            }
+                            if let (Some(Variable::Struct(inner)), Some(want_inner)) = (m.get("inner"), module_names(MODULE_STATES[case.q_state].0)) {
+                                let mut names: Vec<String> = inner.keys().map(|k| k.to_string()).collect();
+                                names.sort();
+                                if names != want_inner {
+                                    rep.violation = Some(("module-names".into(), format!("{desc}: inner module has fields {names:?}, its file declares {want_inner:?}")));
+                                    return rep;
+                                }
+                            }
+                            if MODULE_STATES[case.p_state].0 == "shadows-importer" && case.form == 9 {
+                                if m.get("z").map(cvar) != Some("\"mine\"".to_string()) || m.get("w").map(cvar) != Some("\"mine\"".to_string()) {
+                                    rep.violation = Some(("module-value".into(), format!("{desc}: module is {}, the file defines z = w = \"mine\"", cvar(&Variable::Struct(m.clone())))));
+                                    return rep;
+                                }
+                            }
+                        } else {
+                            rep.violation = Some(("module-names".into(), format!("{desc}: the import did not yield a struct but {}", cvar(&v))));
                         }
                     }
                     Ok(Ok(v)) => {
@@ -1058,11 +1112,13 @@ pub fn import_cases() -> Vec<ImportCase> {
         }
         f
     };
+    // the same errno on the first AND the second read (retry logic): encoded as index 100 + errno
+    let double: Vec<Option<(usize, i32)>> = [libc::EINTR, libc::EAGAIN, libc::EIO].iter().map(|e| Some((100, *e))).collect();
     for form in 0..IMPORT_FORMS.len() {
         for p in 0..MODULE_STATES.len() {
             let qs: Vec<usize> = if p == nested || form == 7 { (0..MODULE_STATES.len()).filter(|q| *q != nested).collect() } else { vec![0] };
             for q in qs {
-                for f in &fault_opts {
+                for f in fault_opts.iter().chain(double.iter()) {
                     v.push(ImportCase { form, p_state: p, q_state: q, fault: *f });
                 }
             }
@@ -1102,6 +1158,9 @@ pub fn worker(input: &Value) -> Value {
     let shards = input["shards"].as_u64().unwrap();
     let runs = input["runs"].as_u64().unwrap();
     let validate = input["validate_runs"].as_u64().unwrap_or(0);
+    let thorough = input["tier"].as_str() == Some("thorough");
+    let mut enumerated = 0u64;
+    let mut torn_n = 0u64;
     crate::boot::boot(boot_seed);
     let mut violations = Vec::new();
     let mut harness_errors = Vec::new();
@@ -1201,6 +1260,33 @@ pub fn worker(input: &Value) -> Value {
                 }
             }
         }
+        // thorough: systematic single-fault enumeration on a sample of the fault-free sequences -
+        // every OS-call index x every errno kind x {before effect, torn}
+        if thorough && !faulty && run % 400 == shard % 400 && rep.violation.is_none() {
+            let n_os_calls = sc.calls.len();
+            for idx in 0..n_os_calls {
+                for (errno, _) in ERRNOS {
+                    for torn in 0..2u8 {
+                        let mut f = sc.clone();
+                        f.faults = vec![(idx, *errno, torn)];
+                        let r = run_scenario(&f);
+                        n += 1;
+                        enumerated += 1;
+                        events += r.events;
+                        for t in &r.triples {
+                            triples.insert(t.clone());
+                        }
+                        merge(&mut faults, &r.faults_fired);
+                        torn_n += r.torn_effects;
+                        if let Some((class, detail)) = &r.violation {
+                            if violations.len() < 8 {
+                                violations.push(json!({"class": class, "detail": detail, "subject_id": format!("run{run}+fault{idx}/{errno}/{torn}"), "scenario": f.to_json(), "log": r.log}));
+                            }
+                        }
+                    }
+                }
+            }
+        }
         if validated < validate && !faulty {
             let scratch = std::env::temp_dir().join(format!("verif-ossim-{}-{}", std::process::id(), run));
             match validate_model(&sc, &scratch) {
@@ -1216,7 +1302,7 @@ pub fn worker(input: &Value) -> Value {
     json!({"boot_seed": boot_seed, "runs": n, "events": events, "triples": triples.iter().collect::<Vec<_>>(), "faults_fired": faults, "natural_errors": natural,
            "torn_effects": torn, "torn_seen_by_later_read": torn_seen, "fault_right_after_create": after_create, "lang_route_rejected": lang_rejected,
            "distinct_final_states": states.len(), "violations": violations, "harness_errors": harness_errors, "samples": samples,
-           "validated_against_real_fs": validated, "table_runs": table_runs, "trace": trace})
+           "validated_against_real_fs": validated, "table_runs": table_runs, "trace": trace, "single_fault_enumeration_runs": enumerated, "torn_in_enumeration": torn_n})
 }
 
 pub fn single(input: &Value) -> Value {
